@@ -61,3 +61,43 @@ def _replay(env, pid, lines, detail):
     p = os.path.join(d, f"{pid}-x{n}.json")
     json.dump({"property": pid, "kind": "failing-input", "lines": lines, "details": [detail]}, open(p, "w"), indent=1)
     return p
+
+
+def c18_race(pid, tier, seed, st, log, env):
+    """cold-process runs of the -race build: simultaneous first use of both basepoint tables by 2..64 goroutines with
+    shared read-only arguments; results compared with the sequential ones. Supporting evidence for the runtime part of C18."""
+    import json
+    BUILD, ROOT, sh = env["BUILD"], env["ROOT"], env["sh"]
+    info = {"coverage": {}, "violations": [], "broken": []}
+    exe = os.path.join(BUILD, "edrace")
+    stamp = os.path.join(BUILD, "edrace.tree")
+    if not os.path.exists(exe) or not os.path.exists(stamp) or open(stamp).read() != st.get("tree_hash", ""):
+        if os.path.exists(exe):
+            os.remove(exe)
+        rc, out, dt = sh(["go", "build", "-race", "-o", exe, "./cmd/edrace"], cwd=os.path.join(ROOT, "harness"), env=env["GOENV"])
+        log(f"build edrace (-race) rc={rc} {dt:.1f}s")
+        if rc != 0:
+            info["coverage"]["race_build"] = "unavailable: " + out[-300:]
+            return True, info        # the race detector is supporting evidence only
+        open(stamp, "w").write(st.get("tree_hash", ""))
+    runs = 0
+    ns = [2, 3, 8, 16, 64] if tier == "quick" else [2, 3, 4, 8, 16, 32, 64, 128]
+    reps = 2 if tier == "quick" else 12
+    for n in ns:
+        for k in range(reps):
+            sd = seed * 100 + k
+            rc, out, dt = sh([exe, str(n), str(sd)], timeout=600)
+            runs += 1
+            if rc != 0:
+                d = os.path.join(ROOT, "evidence", "replay")
+                os.makedirs(d, exist_ok=True)
+                p = os.path.join(d, f"{pid}-race-{n}-{sd}.json")
+                json.dump({"property": pid, "kind": "failing-input", "command": f"/verif/build/edrace {n} {sd}  (go build -race ./cmd/edrace in /verif/harness)",
+                           "exit_status": rc, "output_tail": out[-4000:]}, open(p, "w"), indent=1)
+                what = "data race reported by the Go race detector" if "DATA RACE" in out else "concurrent result differs from sequential result"
+                info["violations"].append(("failing-input", p, f"{what} with {n} goroutines (seed {sd})"))
+                info["coverage"]["race_runs"] = runs
+                return False, info
+    info["coverage"]["race_runs"] = runs
+    info["coverage"]["goroutine_counts"] = ns
+    return True, info
